@@ -34,7 +34,7 @@ def one(pd):
     finally:
         shutil.rmtree(d, ignore_errors=True)
 def main():
-    dirs = [p for a in sys.argv[1:] for p in sorted(pathlib.Path(a).iterdir(), key=lambda x: (len(x.name), x.name)) if (p / "patch.diff").exists()]
+    dirs = [p for a in sys.argv[1:] for p in ([pathlib.Path(a)] if (pathlib.Path(a) / "patch.diff").exists() else sorted(pathlib.Path(a).iterdir(), key=lambda x: (len(x.name), x.name))) if (p / "patch.diff").exists()]
     with cf.ProcessPoolExecutor(12) as ex: res = list(ex.map(one, dirs))
     bad = 0
     for name, fired, err in res:
